@@ -196,11 +196,8 @@ func (c *Ctx) RunSharded(cases []json.RawMessage, o ShardOpts) error {
 					how = "worker process hung (time limit)"
 				}
 				se := stderr.String()
-				if i := strings.Index(se, "\n\n"); i > 0 {
-					se = se[:i]
-				}
-				if len(se) > 600 {
-					se = se[:600]
+				if len(se) > 6000 {
+					se = se[:6000]
 				}
 				culprit := pending[done]
 				if o.CrashClass != nil {
